@@ -62,6 +62,41 @@ Proof.
   - eapply IH; [exact H | discriminate].
 Qed.
 
+(* parse_usize is exactly the specification: optional '+', one or more digits, decimal value < 2^64 *)
+Lemma digits_val_ge : forall s acc v, 0 <= acc -> digits_val acc s = Some v -> acc <= v.
+Proof.
+  intros s; induction s as [|c r IH]; intros acc v Hacc H; cbn [digits_val] in H.
+  - inversion H; subst. lia.
+  - destruct (digit_of c) as [d|] eqn:Ed; [|discriminate].
+    pose proof (digit_of_range c d Ed) as Hd.
+    pose proof (IH (acc * 10 + d) v ltac:(lia) H). lia.
+Qed.
+
+Lemma parse_digits_spec : forall s acc, 0 <= acc < USIZE ->
+  parse_digits acc s = match digits_val acc s with Some v => if v <? USIZE then Some v else None | None => None end.
+Proof.
+  intros s; induction s as [|c r IH]; intros acc Hacc; cbn [parse_digits digits_val].
+  - rewrite (proj2 (Z.ltb_lt acc USIZE)) by lia. reflexivity.
+  - destruct (digit_of c) as [d|] eqn:Ed; [|reflexivity].
+    pose proof (digit_of_range c d Ed) as Hd.
+    destruct (Z.ltb_spec (acc * 10 + d) USIZE) as [Hlt|Hge].
+    + apply IH. lia.
+    + destruct (digits_val (acc * 10 + d) r) as [v|] eqn:Ev; [|reflexivity].
+      pose proof (digits_val_ge r (acc * 10 + d) v ltac:(lia) Ev) as Hv.
+      rewrite (proj2 (Z.ltb_ge v USIZE)) by lia. reflexivity.
+Qed.
+
+Lemma parse_usize_spec : forall s, parse_usize s = spec_parse_usize s.
+Proof.
+  intros s. assert (HU : 0 <= 0 < USIZE) by (split; [lia | vm_compute; reflexivity]).
+  destruct s as [|c r]; [reflexivity|]. unfold parse_usize, spec_parse_usize.
+  destruct (Ascii.eqb_spec c "+") as [Ep|Ep].
+  - subst c. cbn [orb andb]. destruct r as [|c' r']; [reflexivity|]. apply parse_digits_spec. exact HU.
+  - cbn [orb]. destruct (Ascii.eqb_spec c "-") as [Em|Em].
+    + subst c. destruct r as [|c' r']; [reflexivity|]. cbn [andb]. apply parse_digits_spec. exact HU.
+    + cbn [andb]. apply parse_digits_spec. exact HU.
+Qed.
+
 (* ---------------------------------------------------------------------------------------------- *)
 (* booleans                                                                                       *)
 (* ---------------------------------------------------------------------------------------------- *)
@@ -559,7 +594,11 @@ Proof.
   destruct (OOB_PANIC (gen_tp_params compat)) eqn:Ho.
   - split.
     + intros prof e P avail allowed Hn. apply create_pool_ok. unfold abort_condition. intuition.
-    + exists Debug, (env_of []), 16, 4, [0; 1; 2; 3]. vm_compute. repeat split; try reflexivity; discriminate.
+    + exists Debug, (env_of []), 16, 4, [0; 1; 2; 3].
+      assert (Hc : create_pool (gen_tp_params compat) Debug (env_of []) 16 4 [0; 1; 2; 3] = PoolAbort).
+      { apply create_pool_abort_iff. unfold abort_condition. split; [exact Ho|]. split; [reflexivity|].
+        destruct compat; vm_compute; repeat split; reflexivity. }
+      repeat split; try lia; [discriminate | exact Hc].
   - intros prof e P avail allowed. apply create_pool_ok. unfold abort_condition. rewrite Ho. intuition discriminate.
 Qed.
 
@@ -574,3 +613,127 @@ Proof. repeat split; reflexivity. Qed.
 
 Lemma gen_true_values : tp_true_values = spec_true_values.
 Proof. reflexivity. Qed.
+
+(* the two flags, read off the environment: a flag is on exactly for a value of TRUE_VALUES *)
+Lemma config_bool_true_iff : forall tp e name,
+  config_bool tp e name = true <-> exists v, e name = EVal v /\ In v (TRUEV tp).
+Proof.
+  intros tp e name. unfold config_bool, env_var. destruct (e name) as [| |s].
+  - split; [discriminate | intros (v & H & _); discriminate].
+  - split; [discriminate | intros (v & H & _); discriminate].
+  - rewrite cast_bool_spec. split.
+    + intros H. exists s. split; [reflexivity | exact H].
+    + intros (v & H & Hin). inversion H; subst. exact Hin.
+Qed.
+
+Lemma gen_nocache_iff : forall compat e,
+  nocache_of (gen_tp_params compat) e = true <-> exists v, e tp_var_no_cache = EVal v /\ In v tp_true_values.
+Proof.
+  intros compat e. rewrite (gen_nocache_of compat e eq_refl). apply (config_bool_true_iff (gen_tp_params compat)).
+Qed.
+
+Lemma gen_pinning_off_iff : forall compat e,
+  pinning_on (gen_tp_params compat) e = false <-> exists v, e tp_var_no_pinning = EVal v /\ In v tp_true_values.
+Proof.
+  intros compat e. unfold pinning_on.
+  assert (Hp : PIN_NEG (gen_tp_params compat) = true) by reflexivity. rewrite Hp.
+  rewrite negb_false_iff. apply (config_bool_true_iff (gen_tp_params compat)).
+Qed.
+
+(* an invalid value of the crate's own variable (empty, negative, non-numeric, too large: everything
+   [spec_parse_usize] rejects) and an absent / non-unicode variable all configure the default P *)
+Lemma config_default_classes : forall tp e P,
+  COMPAT tp = false ->
+  match e (V_NUM tp) with
+  | EVal v => spec_parse_usize v = None -> config_num_threads tp e P = P
+  | _ => config_num_threads tp e P = P
+  end.
+Proof.
+  intros tp e P Hc. destruct (e (V_NUM tp)) as [| |v] eqn:Ev.
+  - apply config_num_threads_unset; [exact Hc | unfold env_var; rewrite Ev; reflexivity].
+  - apply config_num_threads_unset; [exact Hc | unfold env_var; rewrite Ev; reflexivity].
+  - intros Hn. apply (config_num_threads_own_invalid tp e P v); [unfold env_var; rewrite Ev; reflexivity|].
+    rewrite parse_usize_spec. exact Hn.
+Qed.
+
+(* the size statement in the shape that holds for BOTH forms of the source *)
+Lemma gen_size_guarded : forall compat e P avail,
+  1 <= P <= RAYON_MAX -> 1 <= avail ->
+  tp_zero_is_default = true \/ config_num_threads (gen_tp_params compat) e P <> 0 ->
+  size_ok (gen_tp_params compat) e P avail.
+Proof. intros compat e P avail HP Ha Hg. apply size_guarded; auto. Qed.
+
+Lemma gen_create_pool_abort_iff : forall compat prof e P avail allowed,
+  create_pool (gen_tp_params compat) prof e P avail allowed = PoolAbort <->
+  pin_oob_debug_panics = true /\ prof = Debug /\ pinning_on (gen_tp_params compat) e = true
+  /\ 0 < Z.of_nat (List.length allowed) < pool_threads (gen_tp_params compat) e P avail.
+Proof. intros. apply create_pool_abort_iff. Qed.
+
+Lemma gen_literals :
+  (tp_nocache_disables = true /\ tp_pin_when_not_flag = true /\ tp_combine_is_min = true)
+  /\ tp_true_values = spec_true_values.
+Proof. exact (conj gen_flags_polarity gen_true_values). Qed.
+
+Lemma gen_config_default_classes : forall e P,
+  match e tp_var_num_threads with
+  | EVal v => spec_parse_usize v = None -> config_num_threads (gen_tp_params false) e P = P
+  | _ => config_num_threads (gen_tp_params false) e P = P
+  end.
+Proof. intros e P. exact (config_default_classes (gen_tp_params false) e P eq_refl). Qed.
+
+Lemma gen_zero_request_follows_rayon : forall compat e P avail,
+  tp_zero_is_default = false -> 1 <= P -> config_num_threads (gen_tp_params compat) e P = 0 ->
+  pool_threads (gen_tp_params compat) e P avail = Z.min (rayon_default e avail) RAYON_MAX.
+Proof. intros compat e P avail Hz. apply zero_request_follows_rayon; [reflexivity | exact Hz]. Qed.
+
+Lemma gen_worker_affinity : forall compat prof e P avail allowed t aff i,
+  create_pool (gen_tp_params compat) prof e P avail allowed = PoolOk t aff -> 0 <= i < t ->
+  nth (Z.to_nat i) aff None =
+  if pinning_on (gen_tp_params compat) e && (i <? Z.of_nat (List.length allowed))
+  then Some (nth (Z.to_nat i) allowed (-1)) else None.
+Proof. intros compat. apply worker_affinity. Qed.
+
+Lemma gen_flags : forall compat e,
+  (nocache_of (gen_tp_params compat) e = true <-> exists v, e tp_var_no_cache = EVal v /\ In v tp_true_values)
+  /\ (pinning_on (gen_tp_params compat) e = false <-> exists v, e tp_var_no_pinning = EVal v /\ In v tp_true_values).
+Proof. intros compat e. split; [apply gen_nocache_iff | apply gen_pinning_off_iff]. Qed.
+
+Lemma gen_cached_shared : forall compat e ok sched t1 t2 o1 o2 i1 i2,
+  nocache_of (gen_tp_params compat) e = false ->
+  m_pc (run (nocache_of (gen_tp_params compat) e) ok sched) t1 = PRet o1 i1 ->
+  m_pc (run (nocache_of (gen_tp_params compat) e) ok sched) t2 = PRet o2 i2 ->
+  i1 = i2 /\ o1 = false /\ o2 = false.
+Proof. intros compat e ok sched t1 t2 o1 o2 i1 i2 H. rewrite H. apply cached_shared. Qed.
+
+Lemma gen_no_abort : forall nocache sched, m_abort (run nocache true sched) = false.
+Proof. intros nocache sched. apply abort_only_if_create_fails. reflexivity. Qed.
+
+(* a pool that was created has at least one worker, and every worker came through its start handler *)
+Lemma rayon_threads_pos : forall e avail n, 1 <= avail -> 1 <= rayon_threads e avail n.
+Proof.
+  intros e avail n Ha. unfold rayon_threads, rayon_default, RAYON_MAX.
+  destruct (Z.ltb_spec 0 n) as [Hn|Hn]; [lia|].
+  destruct (env_usize e "RAYON_NUM_THREADS") as [x|].
+  - destruct (Z.ltb_spec 0 x); lia.
+  - destruct (env_usize e "RAYON_RS_NUM_CPUS") as [x|]; [destruct (Z.ltb_spec 0 x); lia | lia].
+Qed.
+
+Lemma create_pool_ok_inv : forall tp prof e P avail allowed t aff,
+  create_pool tp prof e P avail allowed = PoolOk t aff ->
+  t = pool_threads tp e P avail /\ List.length aff = Z.to_nat t.
+Proof.
+  intros tp prof e P avail allowed t aff H. unfold create_pool in H. destruct (pinning_on tp e).
+  - destruct (existsb _ _); [discriminate|]. inversion H; subst. split; [reflexivity|].
+    rewrite !map_length. apply workers_length.
+  - inversion H; subst. split; [reflexivity|]. rewrite map_length. apply workers_length.
+Qed.
+
+Lemma gen_workers_started : forall compat prof e P avail allowed t aff,
+  1 <= avail ->
+  create_pool (gen_tp_params compat) prof e P avail allowed = PoolOk t aff ->
+  1 <= t /\ Z.of_nat (List.length aff) = t.
+Proof.
+  intros compat prof e P avail allowed t aff Ha H. apply create_pool_ok_inv in H. destruct H as [Ht Hl].
+  assert (H1 : 1 <= t) by (subst t; unfold pool_threads; apply rayon_threads_pos; exact Ha).
+  split; [exact H1 | lia].
+Qed.
